@@ -54,5 +54,5 @@ def evaluate(res):
 
 
 def run(rep, tier, seed, replay, proof_ok, proof_msg):
-    ftree.standard(rep, tier, seed, replay, proof_ok, proof_msg, "C17", 300, 4000, True, evaluate, export=True)
+    ftree.standard(rep, tier, seed, replay, proof_ok, proof_msg, "C17", 300, 30000, True, evaluate, export=True)
     rep.assumptions += ["source/target trees: see C09"]
